@@ -738,11 +738,15 @@ func c18Equal(c *C18Eq, r *core.Rec) {
 
 // --- DotString -------------------------------------------------------------------
 
+// C18Str holds the string as bytes (base64 in JSON): Go strings are byte
+// sequences and JSON strings would not survive invalid UTF-8.
 type C18Str struct {
-	S string `json:"s"`
+	B []byte `json:"bytes"`
+	S string `json:"-"`
 }
 
 func c18DotString(c *C18Str, r *core.Rec) {
+	c.S = string(c.B)
 	q := graphout.DotString(c.S)
 	r.Trans(1)
 	if len(c.S) > 0 {
@@ -1049,6 +1053,31 @@ func c18Run(c *core.Ctx) {
 		})
 	}
 	r.Bound("multigraphs", "all multigraphs on n<=3 nodes with adjacency sequences of length<=3 x every root")
+	// dense multigraphs up to 60 nodes: circulants whose stride lists have many distinct
+	// targets followed by repeats of early and late ones (parallel edges far apart in the list)
+	for _, n := range []int{12, 16, 33, 60} {
+		for _, distinct := range []int{3, 8, 9, 10, 11} {
+			for rep := 0; rep < 4; rep++ {
+				if !c.Mine() {
+					continue
+				}
+				var st []int
+				for k := 0; k < distinct && k < n; k++ {
+					st = append(st, (k*5+1)%n)
+				}
+				// repeats: first, last, middle, and a self loop
+				st = append(st, st[rep%len(st)], st[len(st)-1-rep%len(st)], st[len(st)/2], 0, st[0])
+				adj := circulant(n, st)
+				for _, root := range []int{0, n - 1} {
+					gc.Adj, gc.Root, gc.Light = adj, root, true
+					r.Case("graph", gc)
+					r.Try(func() { c18Graph(gc, r) })
+				}
+				gc.Light = false
+			}
+		}
+	}
+	r.Bound("dense_multigraphs", "circulant multigraphs on 12/16/33/60 nodes with 3..11 distinct successors per node followed by repeated ones")
 	// Subgraphs on every digraph n<=3
 	sc := &C18Sub{}
 	for n := 1; n <= 3; n++ {
@@ -1160,8 +1189,10 @@ func c18Run(c *core.Ctx) {
 	}
 	r.Bound("equal", "every ordered pair of multigraphs on n<=2 nodes with lists<=3 (thorough: + every pair of digraphs on 3 nodes)")
 	// DotString on every short string
-	alpha := []byte{'a', 'n', '\\', '"', '\n', '{', '|', '<', '}', '>'}
-	maxLen := 5
+	// ASCII specials, plus bytes >= 0x80: a valid two-byte UTF-8 sequence (c3 a9),
+	// a lone continuation byte, a Latin-1 byte and 0xff (strings are byte sequences)
+	alpha := []byte{'a', 'n', '\\', '"', '\n', '{', '|', '<', '}', '>', 0xc3, 0xa9, 0xe9, 0xff}
+	maxLen := 4
 	strc := &C18Str{}
 	for l := 0; l <= maxLen; l++ {
 		enum.Sequences(l, len(alpha), func(s []int) {
@@ -1172,12 +1203,12 @@ func c18Run(c *core.Ctx) {
 			for i, k := range s {
 				b[i] = alpha[k]
 			}
-			strc.S = string(b)
+			strc.B = b
 			r.Case("dotstring", strc)
 			r.Try(func() { c18DotString(strc, r) })
 		})
 	}
-	r.Bound("dotstring", fmt.Sprintf("every string of length<=%d over %q", maxLen, string(alpha)))
+	r.Bound("dotstring", fmt.Sprintf("every byte string of length<=%d over 14 bytes (ASCII specials and bytes >=0x80)", maxLen))
 	// NodeMarks BFS
 	depth := 4
 	if c.Thorough() {
